@@ -1,4 +1,283 @@
-import SdbModel.Model.Lpm
-/-! # C13 — theorems under construction (see DESIGN.md section 4) -/
+import SdbModel.Lemmas.LpmMap
+
+/-!
+# C13 — LPM trie: exact longest-prefix semantics and persistence
+
+> The longest-prefix-match trie behaves as a map from bit prefixes: Insert, Delete, LookupExact and Len
+> agree with a map; Lookup of a full-length key returns the value of the longest stored prefix covering
+> it and a stored prefix always looks itself up; Prefix(q) yields exactly the stored prefixes covered by
+> q; full iteration and LowerBound(q) yield entries in ascending (prefix bits, prefix length) order,
+> LowerBound starting at the first entry not below q.  Committed tries are persistent: later
+> transactions, committed or abandoned, never alter what an earlier trie or iterator returns.
+
+Theorems over `Model.Lpm` (the byte-level model of lpm/trie.go and lpm/iterator.go: `insert`,
+`delete`/`compress`/`deleteRoot`, `lookup`, `lookupExact`, `prefixNode`, `lowerBound`, `preorder`,
+with `longestMatch`/`getBitAt`/`maskData` following the Go code byte by byte), for ALL tries satisfying
+the invariant `Lpm.WF` and ALL canonical keys `Lpm.Canon d p` (the decoded form of an `EncodeLPMKey`
+result, any prefix length including 0).  `WF` holds for the empty trie and is preserved by `insert` and
+`deleteRoot`, hence for every trie reachable by any operation sequence (`C13_reachable_refines_map`),
+which also shows that the trie together with its size counter equals the reference map run in lockstep.
+The abstraction of a trie is `preorder t`, the list of real entries in iteration order.  "Covers" is
+`Lpm.Covers` (not longer, and its bits are the first bits of the other); the iteration order is
+`Lpm.keyLt`: compare the prefix bits, zero-extended, lexicographically and then the prefix lengths (a
+strict total order on canonical keys, `C13_order_strict_total`; it is NOT the bytewise order of the
+encoded keys, whose trailing length bytes would put 10.0.0.0/16 before 10.0.0.0/8).  Persistence is by
+construction in this model (tries are immutable values); the copy-on-write stamp discipline that makes
+the Go code persistent is the subject of Model.Cow / C01.
+-/
 namespace Sdb
+open Lpm
+
+variable {α : Type}
+
+/-! ## keys -/
+
+/-- `maskData` (the data part of `EncodeLPMKey`) produces canonical keys from any byte string that is
+    long enough, for every prefix length -/
+theorem C13_encoded_key_canonical (data : List Nat) (plen : Nat) (hb : ∀ b ∈ data, b < 256)
+    (hl : (plen + 7) / 8 ≤ data.length) : Canon (maskData data plen) plen :=
+  canon_maskData data plen hb hl
+
+/-- canonical keys are determined by their prefix length and their first `p` bits -/
+theorem C13_key_determined_by_bits (a b : List Nat) (p : Nat) (ha : Canon a p) (hb : Canon b p)
+    (h : Agree a b p) : a = b :=
+  canon_ext a b p ha hb h
+
+/-! ## the invariant -/
+
+theorem C13_wf_empty : WF (.nil : Trie α) := trivial
+
+theorem C13_insert_preserves_wf (t : Trie α) (hwf : WF t) (d : List Nat) (p : Nat) (hq : Canon d p) (v : α) :
+    WF (insert d p v t 0).1 :=
+  insert_root_wf t hwf d p hq v
+
+theorem C13_delete_preserves_wf (t : Trie α) (hwf : WF t) (d : List Nat) (p : Nat) (hq : Canon d p)
+    (t' : Trie α) (v : α) (h : deleteRoot d p t = some (t', v)) : WF t' :=
+  (deleteRoot_some d p hq t hwf t' v h).2.1
+
+/-- every stored key is canonical and stored once -/
+theorem C13_stored_keys_canonical_unique (t : Trie α) (hwf : WF t) (d : List Nat) (p : Nat) (v : α)
+    (hm : (d, p, v) ∈ preorder t) : Canon d p ∧ ∀ v', (d, p, v') ∈ preorder t → v' = v :=
+  ⟨mem_canon hwf hm, fun _ hm' => key_unique hwf hm' hm⟩
+
+/-! ## the trie is a map: LookupExact, Insert, Delete, Len -/
+
+/-- **LookupExact is map lookup** in the entry list -/
+theorem C13_lookupExact_iff_stored (t : Trie α) (hwf : WF t) (d : List Nat) (p : Nat) (hq : Canon d p) (v : α) :
+    lookupExact d p t 0 = some v ↔ (d, p, v) ∈ preorder t :=
+  lookupExact_root t hwf d p hq v
+
+/-- the entries after Insert: the new binding, and every binding of another key -/
+theorem C13_insert_entries (t : Trie α) (hwf : WF t) (d : List Nat) (p : Nat) (hq : Canon d p) (v : α)
+    (d' : List Nat) (p' : Nat) (v' : α) :
+    (d', p', v') ∈ preorder (insert d p v t 0).1 ↔
+      (d' = d ∧ p' = p ∧ v' = v) ∨ (¬ (d' = d ∧ p' = p) ∧ (d', p', v') ∈ preorder t) :=
+  insert_mem d p v hq t 0 hwf (pre_zero _ _ _) d' p' v'
+
+theorem C13_get_after_insert (t : Trie α) (hwf : WF t) (d : List Nat) (p : Nat) (hq : Canon d p) (v : α) :
+    lookupExact d p (insert d p v t 0).1 0 = some v :=
+  lookupExact_insert_same t hwf d p hq v
+
+theorem C13_get_other_after_insert (t : Trie α) (hwf : WF t) (d : List Nat) (p : Nat) (hq : Canon d p) (v : α)
+    (d' : List Nat) (p' : Nat) (hq' : Canon d' p') (hne : ¬ (d' = d ∧ p' = p)) :
+    lookupExact d' p' (insert d p v t 0).1 0 = lookupExact d' p' t 0 :=
+  lookupExact_insert_other t hwf d p hq v d' p' hq' hne
+
+/-- the size delta of Insert is 1 exactly for a new key, and the number of entries grows by it -/
+theorem C13_insert_size_delta (t : Trie α) (hwf : WF t) (d : List Nat) (p : Nat) (hq : Canon d p) (v : α) :
+    (insert d p v t 0).2 = (if (lookupExact d p t 0).isNone then 1 else 0) ∧
+    (preorder (insert d p v t 0).1).length = (preorder t).length + (insert d p v t 0).2 :=
+  ⟨insert_delta d p v hq t 0 hwf (pre_zero _ _ _), insert_length d p v t 0⟩
+
+/-- Delete reports "not found" exactly for keys that are not stored, and then changes nothing
+    (the model returns no new trie) -/
+theorem C13_delete_absent (t : Trie α) (hwf : WF t) (d : List Nat) (p : Nat) (hq : Canon d p) :
+    deleteRoot d p t = none ↔ lookupExact d p t 0 = none :=
+  deleteRoot_none d p hq t hwf
+
+/-- Delete of a stored key returns its value, removes exactly that entry (the iteration order of the
+    others is kept) and the number of entries drops by one -/
+theorem C13_delete_present (t : Trie α) (hwf : WF t) (d : List Nat) (p : Nat) (hq : Canon d p)
+    (t' : Trie α) (v : α) (h : deleteRoot d p t = some (t', v)) :
+    lookupExact d p t 0 = some v ∧
+    preorder t' = (preorder t).filter (fun e => !(decide (e.1 = d ∧ e.2.1 = p))) ∧
+    (preorder t').length + 1 = (preorder t).length :=
+  ⟨(deleteRoot_some d p hq t hwf t' v h).1, (deleteRoot_some d p hq t hwf t' v h).2.2,
+    delete_length t hwf d p hq t' v h⟩
+
+theorem C13_get_after_delete (t : Trie α) (hwf : WF t) (d : List Nat) (p : Nat) (hq : Canon d p)
+    (t' : Trie α) (v : α) (h : deleteRoot d p t = some (t', v)) : lookupExact d p t' 0 = none :=
+  lookupExact_delete_same t hwf d p hq t' v h
+
+theorem C13_get_other_after_delete (t : Trie α) (hwf : WF t) (d : List Nat) (p : Nat) (hq : Canon d p)
+    (t' : Trie α) (v : α) (h : deleteRoot d p t = some (t', v))
+    (d' : List Nat) (p' : Nat) (hq' : Canon d' p') (hne : ¬ (d' = d ∧ p' = p)) :
+    lookupExact d' p' t' 0 = lookupExact d' p' t 0 :=
+  lookupExact_delete_other t hwf d p hq t' v h d' p' hq' hne
+
+/-! ## Lookup: longest covering prefix -/
+
+/-- **Lookup of a full-length key** (a key at least as long as every stored prefix, e.g. a /32 in an
+    IPv4 table): the result is the value of a stored prefix that covers the key and is the longest
+    such; "not found" means that no stored prefix covers the key. -/
+theorem C13_lookup_longest_prefix (t : Trie α) (hwf : WF t) (d : List Nat) (p : Nat) (hq : Canon d p)
+    (hfull : ∀ e ∈ preorder t, e.2.1 ≤ p) :
+    match lookup d p t 0 none with
+    | some v => ∃ d' p', (d', p', v) ∈ preorder t ∧ Covers d' p' d p ∧
+        ∀ e ∈ preorder t, Covers e.1 e.2.1 d p → e.2.1 ≤ p'
+    | none => ∀ e ∈ preorder t, ¬ Covers e.1 e.2.1 d p := by
+  rcases lookup_spec d p hq t 0 none hwf (pre_zero _ _ _) (Or.inl hfull) with ⟨h1, h2⟩ | ⟨d', p', v', h1, h2, h3, h4⟩
+  · rw [h1]; exact h2
+  · rw [h1]; exact ⟨d', p', h2, h3, h4⟩
+
+/-- conversely, the longest stored prefix covering a full-length key is what Lookup returns -/
+theorem C13_lookup_finds_longest (t : Trie α) (hwf : WF t) (d : List Nat) (p : Nat) (hq : Canon d p)
+    (hfull : ∀ e ∈ preorder t, e.2.1 ≤ p) (d' : List Nat) (p' : Nat) (v' : α)
+    (hm : (d', p', v') ∈ preorder t) (hc : Covers d' p' d p)
+    (hlong : ∀ e ∈ preorder t, Covers e.1 e.2.1 d p → e.2.1 ≤ p') :
+    lookup d p t 0 none = some v' := by
+  rcases lookup_spec d p hq t 0 none hwf (pre_zero _ _ _) (Or.inl hfull) with ⟨_, h2⟩ | ⟨d'', p'', v'', h1, h2, h3, h4⟩
+  · exact absurd hc (h2 _ hm)
+  · have e1 : p' ≤ p'' := h4 _ hm hc
+    have e2 : p'' ≤ p' := hlong _ h2 h3
+    have hp : p'' = p' := by omega
+    subst hp
+    have hd : d'' = d' :=
+      canon_ext _ _ _ (mem_canon hwf h2) (mem_canon hwf hm) (h3.2.trans hc.2.symm)
+    subst hd
+    rw [h1, key_unique hwf h2 hm]
+
+/-- **a stored prefix always looks itself up** (no restriction on the other stored prefixes) -/
+theorem C13_lookup_stored_prefix (t : Trie α) (hwf : WF t) (d : List Nat) (p : Nat) (hq : Canon d p) (v : α)
+    (hm : (d, p, v) ∈ preorder t) : lookup d p t 0 none = some v :=
+  lookup_self d p hq t 0 none hwf (pre_zero _ _ _) v hm
+
+/-- **Lookup of an arbitrary key** (not required by the property, which speaks of full-length keys):
+    if some node of the trie lies under the key's prefix - `Prefix(key)` is non-empty - Lookup returns
+    the value slot of the topmost such node, whose prefix extends the key (so it covers the key only
+    if it IS the key; the slot is empty for an imaginary node); otherwise it returns the longest
+    stored prefix covering the key, or nothing if there is none. -/
+theorem C13_lookup_any_key (t : Trie α) (hwf : WF t) (d : List Nat) (p : Nat) (hq : Canon d p) :
+    match prefixNode d p t 0 with
+    | .node pd pp pv _ _ => lookup d p t 0 none = pv ∧ Covers d p pd pp
+    | .nil =>
+      match lookup d p t 0 none with
+      | some v => ∃ d' p', (d', p', v) ∈ preorder t ∧ Covers d' p' d p ∧
+          ∀ e ∈ preorder t, Covers e.1 e.2.1 d p → e.2.1 ≤ p'
+      | none => ∀ e ∈ preorder t, ¬ Covers e.1 e.2.1 d p := by
+  cases hp : prefixNode d p t 0 with
+  | node pd pp pv pc0 pc1 =>
+    exact ⟨lookup_hit d p hq t 0 none hwf (pre_zero _ _ _) pd pp pv pc0 pc1 hp,
+      prefixNode_root_covered d p hq t 0 hwf (pre_zero _ _ _) pd pp pv pc0 pc1 hp⟩
+  | nil =>
+    rcases lookup_spec d p hq t 0 none hwf (pre_zero _ _ _) (Or.inr hp) with
+      ⟨h1, h2⟩ | ⟨d', p', v', h1, h2, h3, h4⟩
+    · simp only [h1]; exact h2
+    · simp only [h1]; exact ⟨d', p', h2, h3, h4⟩
+
+/-! ## Prefix -/
+
+/-- **Prefix(q) yields exactly the stored prefixes covered by q**, in iteration order -/
+theorem C13_prefix_yields_covered (t : Trie α) (hwf : WF t) (d : List Nat) (p : Nat) (hq : Canon d p) :
+    preorder (prefixNode d p t 0) = (preorder t).filter (fun e => decide (Covers d p e.1 e.2.1)) :=
+  prefixNode_spec d p hq t 0 hwf (pre_zero _ _ _)
+
+/-! ## iteration order, LowerBound -/
+
+/-- the order is a strict total order on canonical keys -/
+theorem C13_order_strict_total :
+    (∀ (d : List Nat) (p : Nat), ¬ keyLt d p d p) ∧
+    (∀ (d1 : List Nat) (p1 : Nat) (d2 : List Nat) (p2 : Nat) (d3 : List Nat) (p3 : Nat),
+      keyLt d1 p1 d2 p2 → keyLt d2 p2 d3 p3 → keyLt d1 p1 d3 p3) ∧
+    (∀ (d1 : List Nat) (p1 : Nat) (d2 : List Nat) (p2 : Nat), Canon d1 p1 → Canon d2 p2 →
+      keyLt d1 p1 d2 p2 ∨ (d1 = d2 ∧ p1 = p2) ∨ keyLt d2 p2 d1 p1) :=
+  ⟨keyLt_irrefl, fun _ _ _ _ _ _ h h' => keyLt_trans h h', fun _ _ _ _ h h' => keyLt_total h h'⟩
+
+/-- **full iteration is strictly ascending** in (prefix bits, prefix length) -/
+theorem C13_iteration_ascending (t : Trie α) (hwf : WF t) :
+    (preorder t).Pairwise (fun e1 e2 => keyLt e1.1 e1.2.1 e2.1 e2.2.1) :=
+  preorder_sorted t hwf
+
+/-- **LowerBound(q) yields exactly the suffix of the iteration starting at the first entry not below q** -/
+theorem C13_lowerBound_is_suffix (t : Trie α) (hwf : WF t) (d : List Nat) (p : Nat) (hq : Canon d p) :
+    ∃ pre, preorder t = pre ++ lowerBound d p t 0 [] ∧
+      (∀ e ∈ pre, keyLt e.1 e.2.1 d p) ∧ (∀ e ∈ lowerBound d p t 0 [], ¬ keyLt e.1 e.2.1 d p) := by
+  obtain ⟨pre, suf, h1, h2, h3, h4⟩ := lowerBound_spec d p hq t 0 [] hwf (pre_zero _ _ _)
+  simp only [List.flatMap_nil, List.append_nil] at h2
+  rw [h2]
+  exact ⟨pre, h1, h3, h4⟩
+
+/-! ## arbitrary operation sequences -/
+
+/-- **every reachable trie is well formed and equals the reference map**: starting from any state that
+    represents a map `m` (in particular the empty trie and the empty map, `refines_empty`), after any
+    sequence of Insert/Delete with canonical keys the trie is well formed, its size counter is the
+    number of entries, and LookupExact agrees with the reference map on every key -/
+theorem C13_reachable_refines_map (st : Trie α × Nat) (m : RefMap α) (h : Refines st m)
+    (ops : List (Op α)) (hc : ∀ op ∈ ops, op.Canonical) :
+    WF (runFrom st ops).1 ∧ (runFrom st ops).2 = (preorder (runFrom st ops).1).length ∧
+    ∀ d p, Canon d p → lookupExact d p (runFrom st ops).1 0 = refRunFrom m ops (d, p) :=
+  runFrom_refines ops st m h hc
+
+/-- the iteration (hence every query above, which is expressed through it) is a function of the map
+    alone: two well-formed tries with the same LookupExact results iterate identically, whatever
+    operation sequences built them -/
+theorem C13_iteration_determined_by_map (t1 t2 : Trie α) (h1 : WF t1) (h2 : WF t2)
+    (h : ∀ d p, Canon d p → lookupExact d p t1 0 = lookupExact d p t2 0) : preorder t1 = preorder t2 :=
+  preorder_determined t1 t2 h1 h2 h
+
+theorem C13_reachable_from_empty (ops : List (Op α)) (hc : ∀ op ∈ ops, op.Canonical) :
+    WF (runFrom (.nil, 0) ops).1 ∧ (runFrom (.nil, 0) ops).2 = (preorder (runFrom (.nil, 0) ops).1).length ∧
+    ∀ d p, Canon d p → lookupExact d p (runFrom (.nil, 0) ops).1 0 = refRunFrom (fun _ => none) ops (d, p) :=
+  runFrom_refines ops _ _ refines_empty hc
+
+/-! ## non-vacuity: a reachable trie with an imaginary node, after a delete -/
+
+private theorem canon_of_mask (d : List Nat) (p : Nat) (hb : ∀ b ∈ d, b < 256) (hl : (p + 7) / 8 ≤ d.length)
+    (hm : maskData d p = d) : Canon d p := hm ▸ canon_maskData d p hb hl
+
+private def exOps : List (Op Nat) :=
+  [.ins [10] 8 1, .ins [10, 1] 16 2, .ins [10, 2] 16 3, .ins [] 0 9, .del [10] 8, .ins [10, 2, 128] 17 4]
+
+private theorem exOps_canonical : ∀ op ∈ exOps, op.Canonical := by
+  intro op hop
+  simp only [exOps, List.mem_cons, List.not_mem_nil, or_false] at hop
+  rcases hop with rfl | rfl | rfl | rfl | rfl | rfl <;>
+    exact canon_of_mask _ _ (by decide) (by decide) (by decide)
+
+/-- the hypotheses of all theorems above hold of this trie (it is reachable), it contains an imaginary
+    node (`0a00/14*`), and the queries evaluate as the theorems say -/
+example :
+    WF (runFrom (.nil, 0) exOps).1 ∧
+    dump (runFrom (.nil, 0) exOps).1 = "(/0 (0a00/14* (0a01/16 - -) (0a02/16 - (0a0280/17 - -))) -)" ∧
+    (runFrom (.nil, 0) exOps).2 = 4 ∧
+    preorder (runFrom (.nil, 0) exOps).1 = [([], 0, 9), ([10, 1], 16, 2), ([10, 2], 16, 3), ([10, 2, 128], 17, 4)] ∧
+    (∀ e ∈ preorder (runFrom (.nil, 0) exOps).1, e.2.1 ≤ 24) ∧ Canon [10, 2, 200] 24 ∧
+    lookup [10, 2, 200] 24 (runFrom (.nil, 0) exOps).1 0 none = some 4 ∧
+    lookup [10, 3, 0] 24 (runFrom (.nil, 0) exOps).1 0 none = some 9 ∧
+    preorder (prefixNode [10] 8 (runFrom (.nil, 0) exOps).1 0) =
+      [([10, 1], 16, 2), ([10, 2], 16, 3), ([10, 2, 128], 17, 4)] ∧
+    lowerBound [10, 2] 16 (runFrom (.nil, 0) exOps).1 0 [] = [([10, 2], 16, 3), ([10, 2, 128], 17, 4)] ∧
+    (deleteRoot [10, 1] 16 (runFrom (.nil, 0) exOps).1).map (fun r => (dump r.1, r.2)) =
+      some ("(/0 (0a02/16 - (0a0280/17 - -)) -)", 2) ∧
+    deleteRoot [10, 3] 16 (runFrom (.nil, 0) exOps).1 = none :=
+  ⟨(C13_reachable_from_empty exOps exOps_canonical).1, by decide, by decide, by decide, by decide,
+    canon_of_mask _ _ (by decide) (by decide) (by decide), by decide, by decide, by decide, by decide,
+    by decide, by decide⟩
+
+/-! ## remark: Lookup with a key that is NOT full-length
+
+The two theorems about `lookup` need the key to be at least as long as every stored prefix.  Without
+that hypothesis the walk of `lpmLookup` (and of the model) does not compute the longest covering prefix:
+a query shorter than a stored prefix that it covers returns THAT entry although it does not cover the
+query, and a query that coincides with an imaginary node reports "not found" even when a shorter
+stored prefix covers it. -/
+
+example : lookup [10] 8 (insert [10, 1, 1] 24 7 (.nil : Trie Nat) 0).1 0 none = some 7 := by decide
+
+example :
+    let t := (runFrom (.nil, 0) ([.ins [10] 8 1, .ins [10, 1, 0] 24 2, .ins [10, 1, 1] 24 3] : List (Op Nat))).1
+    dump t = "(0a/8 (0a0100/23* (0a0100/24 - -) (0a0101/24 - -)) -)" ∧
+    lookup [10, 1, 0] 23 t 0 none = none ∧ lookupExact [10] 8 t 0 = some 1 := by decide
+
 end Sdb
